@@ -8,6 +8,7 @@ Beyond the parser (`parse_body`, `walk`):
    (`cvflag = -3`), so that a test is recognised by what it decides, not by how it is spelt;
  * `inline_calls`: a call `helper(a, b);` / `x = helper(a, b);` of a function defined in the same file is replaced by its body
    under C++ parameter passing (by-value parameters the helper writes are fresh copies, reference / pointer parameters alias);
+ * `const_defs`: named numeric constants of file / class scope (`static const int N = 5;`, `#define N 5`);
  * `copies`: the whole-array copies a statement performs (index loop, memcpy, std::copy, std::copy_n);
  * `Sym`: straight-line symbolic execution (scalars as C expressions over the values at the start, arrays as named
    values, branches decided by the concrete values) -- what a piece of code leaves in `dt`, `t0`, `ab` for a given flag;
@@ -88,6 +89,46 @@ def expand_macros(text: str, defs: dict, depth=0) -> str:
             out.append(text[m.start():j])
         i = j
     return "".join(out)
+
+
+CONSTDEF = re.compile(r"^[ \t]*(?:(?:static|inline|extern)\s+)*(?:constexpr|const)\s+(?:(?:static|const|unsigned|signed|long|short)\s+)*\w+\s+(\w+)\s*(?:=\s*([^;{}]+)|\{([^;{}]*)\})\s*;", re.M)
+OBJDEF = re.compile(r"^[ \t]*#[ \t]*define[ \t]+(\w+)[ \t]+([^\n\\]+?)[ \t]*$", re.M)
+
+
+def const_defs(text: str, known=None) -> dict:
+    """named numeric constants a piece of C++ text (file / class scope) defines -- `static const int N = 5;`, `constexpr double B{10.0};`,
+    `#define N 5`, `#define M (N + 1)` -- as {name: number}.  A name defined twice with different values (conditional
+    compilation) or by anything that is not a number (or by such a name) is left out."""
+    text = re.sub(r"//[^\n]*", "", text)
+    defs = sorted(list(CONSTDEF.finditer(text)) + list(OBJDEF.finditer(text)), key=lambda x: x.start())
+    banned = set()
+    for _ in range(4):
+        vals = dict(known or {})
+        seen = {}
+        for m in defs:
+            name = m.group(1)
+            rhs = m.group(2) if m.group(2) is not None else (m.group(3) if m.re is CONSTDEF else None)
+            try:
+                v = value(tokenize(rhs), vals) if rhs and rhs.strip() and name not in banned else UNK
+            except CStmtError:
+                v = UNK
+            if isinstance(v, bool) or not isinstance(v, (int, float)) or (name in seen and seen[name] != v):
+                v = UNK
+            seen[name] = v
+            vals.pop(name, None)
+            if v is not UNK:
+                vals[name] = v
+        bad = {k for k, v in seen.items() if v is UNK}
+        if bad <= banned:
+            break
+        banned |= bad
+    return {k: v for k, v in seen.items() if v is not UNK}
+
+
+def const_tokens(v):
+    """a number as expression tokens"""
+    t = repr(v)
+    return [t] if v >= 0 else ["(", "-", t[1:], ")"]
 
 
 def tokenize(s: str):
